@@ -21,10 +21,36 @@ def parallel_placement_ok(prog):
         binds = o.kind in ("scan", "ifexists", "aggregate", "nestedop")
         walk_op(getattr(o, "body", None) if o.kind not in ("insert", "erase", "return") else None, depth + (1 if binds else 0), inp, q)
 
+    def reads_writes(o, reads, writes, par):
+        if o is None:
+            return par
+        par = par or getattr(o, "parallel", False)
+        if o.kind in ("scan", "ifexists", "aggregate"):
+            reads.add(o.rel)
+        if o.kind in ("insert", "erase"):
+            writes.add(o.rel)
+        for c in [getattr(o, "cond", None)]:
+            conds(c, reads)
+        return reads_writes(getattr(o, "body", None) if o.kind not in ("insert", "erase", "return") else None, reads, writes, par)
+
+    def conds(c, reads):
+        if c is None:
+            return
+        if c.kind in ("exists", "isempty"):
+            reads.add(c.rel)
+        for a in ("lhs", "rhs", "arg"):
+            x = getattr(c, a, None)
+            if x is not None and getattr(x, "kind", None) in ("and", "not", "exists", "isempty"):
+                conds(x, reads)
+
     def walk(ss):
         for s in ss:
             if s.kind == "query":
                 walk_op(s.op, 0, False, s)
+                reads, writes = set(), set()
+                if reads_writes(s.op, reads, writes, False) and reads & writes:
+                    # iterations of a PARALLEL loop must not observe each other's writes (non-interference)
+                    bad.append("PARALLEL query reads and writes %s" % sorted(reads & writes))
             elif hasattr(s, "body") and isinstance(s.body, list):
                 walk(s.body)
     for ss in prog.subs.values():
